@@ -88,7 +88,7 @@ class DenseTimeOnlineUpdateVisitor(AbstractOnlineUpdateVisitor):
         return sample_return
 
     def visitConstant(self, node, online_operator_dict, var_object_dict):
-        sample_return = [[0, node.val], [float("inf"), node.val]]
+        sample_return = online_operator_dict[node.name].update()
         return sample_return
 
 
